@@ -223,3 +223,60 @@ _generic("C14", param_props,
          note=("Trusted base: TLC's evaluation of ParamSys.tla, numpy charts (log/exp) for the "
                "transcendental nodes, float64 comparison at rtol 1e-9. Gaussian-product "
                "log-partition is not covered (no rational form). Bounded shapes and depth."))
+
+from . import rg_props  # noqa: E402  pylint: disable=wrong-import-position
+
+_generic("C16", rg_props,
+         "A seeded driver calls RandomBinaryTree, LinearTree, FullyFactorized, QuadTree, QuadGraph, "
+         "PoonDomingos and ChowLiuTree over their valid argument space (sizes 1..16, depths, "
+         "repetitions, seeds, orderings, image shapes incl. odd and 1xn, deltas as scalar / list / "
+         "list of lists, max_depth, categorical / Gaussian / mixed data with every root) and with "
+         "invalid arguments; each call is recorded (regions, partitions with parent and children, "
+         "roots, SD flag, the dump->load image, the layer structure of circuits built with cp / "
+         "cp-t / tucker and with explicit sum / product factories for several unit counts) and "
+         "TLC validates every record against the definitions in TraceRG.tla.",
+         "Trace validation (direction B): validity of region graphs and of the circuits built from "
+         "them is a TLA+ predicate evaluated by TLC on records of real executions.",
+         "TLA+ validity predicates (TraceRG.tla) evaluated by TLC on ndjson records of real "
+         "region-graph constructions and build_circuit calls",
+         note=("Trusted base: TLC, the recorder (reads the public RegionGraph / Circuit API). The "
+               "argument space is sampled (seeded), not exhaustive; optimality of the Chow-Liu tree "
+               "is not specified, only validity."))
+
+from . import template_props  # noqa: E402  pylint: disable=wrong-import-position
+
+_generic("C20", template_props,
+         "A seeded driver builds circuits with the real cp / tucker / tensor_train / hmm / "
+         "fully_factorized templates (shapes up to 3x3x3(x3), ranks 1-3, embedding and categorical "
+         "factors, weighted / unweighted CP, every ordering of <= 4 HMM variables with a different "
+         "number of categories per variable id), loads generic integers into every symbolic tensor, "
+         "evaluates the compiled circuit on every index tuple under rotating flag combinations, "
+         "and records the factor tables by their documented roles; TLC recomputes the documented "
+         "CP / Tucker / tensor-train contraction, the HMM joint (backward recursion over the given "
+         "ordering) and the fully factorised product, and checks that variable v's input layer has "
+         "the arguments given for variable id v.",
+         "Trace validation (direction B): the documented formulas are TLA+ operators over integer "
+         "factor tables, evaluated by TLC on records of real template circuits.",
+         "TLA+ formulas (TraceTemplates.tla) evaluated by TLC on ndjson records of real template "
+         "constructions and evaluations",
+         note=("Trusted base: TLC, the recorder (reads factor tensors by documented role from the "
+               "symbolic circuit; activation 'none' so that parameters equal tensor values), exact "
+               "integer arithmetic (float64 outputs rounded, deviation > 1e-6 is an error). Logic "
+               "circuits (SDD / propositional formulas) and binomial factors are not covered."))
+
+_sem("C15",
+     "TLC enumerates smooth and decomposable circuits with normalised parameters (categorical "
+     "inputs with normalised dyadic rows; dense / mixing sums of any arity with normalised rows; "
+     "Hadamard and Kronecker products) in two schemes: asymmetric normalised rows and one-hot rows; "
+     "the exact joint distribution is the Tier-R table. SamplingQuery is run under the four "
+     "fold x optimize combinations: shape (n, variables), every sample in the domain and of "
+     "positive probability, one-hot circuits must return the unique assignment, empirical "
+     "frequencies within 6 sigma of the exact probabilities (re-drawn with 8x more samples and "
+     "another seed before a deviation is reported).",
+     "Exhaustive TLC enumeration of normalised circuits with the exact joint distribution from the "
+     "reference semantics; support and deterministic routing are decided exactly, convergence by a "
+     "finite-sample test against the exact distribution.",
+     "TLA+ reference semantics (exact joint distribution) + TLC enumeration + replay through "
+     "SamplingQuery (exact support / routing checks, 6-sigma frequency test)",
+     extra_assumptions=["the convergence clause is a finite-sample statistical test (n = 3000 "
+                        "quick / 20000 thorough per circuit and flag set, 6 sigma, confirm step)"])
